@@ -267,4 +267,54 @@ theorem flush_closed_routes {s : State} {u d : DP} (hi : Inv s u d) (hu : u.clos
   rw [applyAll_append, hd0]
   exact (closedR_nonRV (nrv_post _) (AfterEach_last kmid)).1
 
+/-- Upstream-level form of the extra hypothesis: a route the dataplane has that needs a VTEP which is
+no longer declared is itself no longer declared (it is removed, not re-pointed). -/
+def NoRepoint (d u : DP) : Prop :=
+  ∀ dst r n, d.route dst = some r → r.vtep = some n → u.vtep n = none → u.route dst = none
+
+/-- at every flush of the history: the declared state is route-closed and `NoRepoint` holds w.r.t. the
+dataplane state (= the state declared at the previous flush) -/
+def RoutesOKAtFlushes (d u : DP) : List Step → Prop
+  | [] => True
+  | .call c :: t => RoutesOKAtFlushes d (upApply u c) t
+  | .flush :: t => u.closedRoutes ∧ NoRepoint d u ∧ RoutesOKAtFlushes u u t
+
+theorem hnr_of_noRepoint {s : State} {u d : DP} (hi : Inv s u d) (h : NoRepoint d u) :
+    ∀ dst r n, d.route dst = some r → r.vtep = some n → n ∈ s.vtep.del → dst ∈ s.route.del := by
+  intro dst r n h1 h2 hn
+  have hun : u.vtep n = none := by
+    rw [hi.vtep.view n, hi.vtep.disj n hn]; simp [hn]
+  have hur := h dst r n h1 h2 hun
+  rw [hi.route.view dst] at hur
+  cases hm : mget s.route.upd dst with
+  | some v => rw [hm] at hur; cases hur
+  | none =>
+    rw [hm] at hur
+    by_cases hd : dst ∈ s.route.del
+    · exact hd
+    · simp only [hd, if_false] at hur; rw [h1] at hur; cases hur
+
+/-- Route → VTEP closure after every single message, for all histories (with flushes anywhere) that
+respect the upstream protocol and satisfy `RoutesOKAtFlushes`. -/
+theorem hist_closed_routes {s : State} {u d : DP} (hi : Inv s u d) (hd : d.closedRoutes) (h : List Step)
+    (hv : ValidHist u h) (hr : RoutesOKAtFlushes d u h) :
+    ∃ s' ms, execHist s h = some (s', ms) ∧ AfterEach DP.closedRoutes d ms := by
+  induction h generalizing s u d with
+  | nil => exact ⟨s, [], rfl, hd⟩
+  | cons st t ih =>
+    cases st with
+    | call c =>
+      obtain ⟨s1, hcall, hi1⟩ := hi.call c hv.1
+      obtain ⟨s', ms, he, hw⟩ := ih hi1 hd hv.2 hr
+      exact ⟨s', ms, by simp only [execHist, hcall, he], hw⟩
+    | flush =>
+      have hf := flush_ok s u d hi
+      have hcl := flush_closed_routes hi hr.1 hd (hnr_of_noRepoint hi hr.2.1)
+      have hsync := flush_synced hi
+      have hi' : Inv s.flush.1 u u := by rw [← hsync] at hf; rw [← hsync]; exact hsync ▸ hf.2
+      have hcu : u.closedRoutes := hr.1
+      obtain ⟨s', ms, he, hw⟩ := ih hi' hcu hv hr.2.2
+      refine ⟨s', s.flush.2 ++ ms, by simp only [execHist, he], ?_⟩
+      rw [AfterEach_append, hsync]; exact ⟨hcl, hw⟩
+
 end CalicoVerif.C02
